@@ -116,9 +116,11 @@ def deductive_stage(jobs, tier, src_root=None):
     # per-obligation budget: on the unchanged tree every obligation is proved well inside it (slowest ~13 s with all cores
     # busy here, about twice that on the machine that re-runs the checks), so the size only matters for how long an obligation that has become unprovable is pursued - and for not
     # flipping a verdict to `unknown` on a loaded machine
-    to = 60000 if tier == "quick" else 120000
+    to = 45000 if tier == "quick" else 120000
+    known_obl = [o for k in load_known().get("known", []) for o in k.get("obligations", [])]
     for jb in jobs:
         jb["timeout_ms"] = to
+        jb["known_obligations"] = known_obl
         if src_root:
             jb["src_root"] = src_root
     return run_jobs([dict(jb) for jb in jobs])
@@ -237,7 +239,7 @@ def run_property(pid, tier):
         from pyvc import joint
         t1 = time.time()
         try:
-            jobls = joint.run(os.environ.get("SANSLDAP_SRC"), 60000 if tier == "quick" else 120000)
+            jobls = joint.run(os.environ.get("SANSLDAP_SRC"), 45000 if tier == "quick" else 120000)
         except Exception as e:
             jobls = []
             errors.append({"function": "pyvc.joint", "error": f"{type(e).__name__}: {e}"[:600], "kind": "crash"})
